@@ -44,6 +44,22 @@ def main():
     r = runner.explore("harness.fam_units", fam_units.shards(t, (PROP,), kn),
                        nproc=common.nproc(), budget_s=300 if t == "quick" else 1500)
     chk.add("unit-prestate", r)
+    from . import fam_nbdiff, fam_nbmerge, fam_merge
+    r = runner.explore("harness.fam_nbdiff", fam_nbdiff.shards(t, (PROP,), kn, files=0),
+                       nproc=common.nproc(), budget_s=400 if t == "quick" else 3000)
+    chk.add("notebook-diffs", r)
+    base = fam_nbmerge.default_shards(t, (PROP,), kn, tools=("git",))
+    sh = base + fam_nbmerge.with_strat([s for s in base if s[1].startswith("act-")],
+                                       ("mergetool", None, None, True), "-mergetool")
+    sh += fam_nbmerge.strategy_shards(t, (PROP,), kn, tools=("git",))
+    r = runner.explore("harness.fam_nbmerge", sh, nproc=common.nproc(),
+                       budget_s=400 if t == "quick" else 3000)
+    chk.add("diffs-inside-notebook-decisions", r)
+    r = runner.explore("harness.fam_merge", fam_merge.triple_shards(t, (PROP,), kn),
+                       nproc=common.nproc(), budget_s=300 if t == "quick" else 2400)
+    chk.add("diffs-inside-generic-decisions", r)
+    chk.bounds.update(fam_nbdiff.BOUNDS[t])
+    chk.bounds.update(fam_nbmerge.BOUNDS[t])
     chk.bounds.update(fam_diff.BOUNDS[t])
     chk.bounds.update(fam_units.BOUNDS[t])
     chk.outside += fam_diff.OUTSIDE
